@@ -489,13 +489,18 @@ func (c *Ctx) Print(asserts []*Term, vals []*Term, opts PrintOpts) *Script {
 			if len(t.Pats) > 0 {
 				var ps []string
 				for _, p := range t.Pats {
+					if !validPattern(p) {
+						continue // (rewriting turned the trigger into something solvers reject)
+					}
 					var xs []string
 					for _, x := range p {
 						xs = append(xs, pr(x, false))
 					}
 					ps = append(ps, ":pattern ("+strings.Join(xs, " ")+")")
 				}
-				body = "(! " + body + " " + strings.Join(ps, " ") + ")"
+				if len(ps) > 0 {
+					body = "(! " + body + " " + strings.Join(ps, " ") + ")"
+				}
 			}
 			return "(" + t.Op + " (" + strings.Join(bs, " ") + ") " + body + ")"
 		case "extract":
@@ -587,4 +592,33 @@ func ParseValue(e *SExpr) (*big.Int, bool) {
 		return v, ok
 	}
 	return nil, false
+}
+
+// validPattern: every term of the trigger is built from function applications, selects and arithmetic
+// over variables — no boolean connective, ite or equality (which solvers refuse in patterns).
+func validPattern(p []*Term) bool {
+	seen := map[int]bool{}
+	var ok func(t *Term) bool
+	ok = func(t *Term) bool {
+		if seen[t.ID] {
+			return true
+		}
+		seen[t.ID] = true
+		switch t.Op {
+		case "ite", "=", "not", "and", "or", "=>", "distinct", "forall", "exists", "<", "<=", ">", ">=":
+			return false
+		}
+		for _, a := range t.Args {
+			if !ok(a) {
+				return false
+			}
+		}
+		return true
+	}
+	for _, t := range p {
+		if !ok(t) || t.Op == "var" || t.Op == "const" {
+			return false
+		}
+	}
+	return true
 }
